@@ -104,6 +104,8 @@ type c10Case struct {
 	// http: time between the first and the second request (redis only: FastForward); the transport fails on the second
 	Adv   int64 `json:"adv,omitempty"`
 	Fail2 bool  `json:"fail2,omitempty"`
+	// http: the response body arrives this long after the headers (slow upstream); in-memory backend, real time
+	BodyDelay int64 `json:"body_delay,omitempty"`
 	// exec cc: through the real oauth2_client_credentials finalizer (prototype + rule-level cache_ttl) instead of Config.Token
 	ViaFin bool `json:"via_finalizer,omitempty"`
 
@@ -159,6 +161,7 @@ type recEv struct {
 }
 
 type recCache struct {
+	setAt  time.Time // when the first Set of the current request was called
 	mu     sync.Mutex
 	inner  cache.Cache
 	cur    int
@@ -192,12 +195,17 @@ func (r *recCache) Get(ctx context.Context, key string) ([]byte, error) {
 }
 
 func (r *recCache) Set(ctx context.Context, key string, value []byte, ttl time.Duration) error {
+	called := time.Now()
 	err := r.inner.Set(ctx, key, value, ttl)
 
 	r.mu.Lock()
 	defer r.mu.Unlock()
 
 	r.origin[vhash(value)] = r.cur
+	if r.setAt.IsZero() {
+		r.setAt = called
+	}
+
 	r.log = append(r.log, recEv{ttl: ttl, err: err != nil})
 
 	return err
@@ -207,6 +215,7 @@ func (r *recCache) begin(cur int) {
 	r.mu.Lock()
 	r.cur = cur
 	r.log = nil
+	r.setAt = time.Time{}
 	r.mu.Unlock()
 }
 
@@ -1019,6 +1028,30 @@ type stubTransport struct {
 
 var errRemoteDown = errors.New("c10: remote system down")
 
+// slowBody: a response body whose bytes arrive `delay` after the headers (the reader blocks that long on its first
+// Read); `took` is the time the reader was actually blocked -- a lower bound of the time between the moment the response
+// (its headers) was available and the moment its body had been read completely.
+type slowBody struct {
+	r     io.Reader
+	delay time.Duration
+	once  sync.Once
+	took  atomic.Int64
+}
+
+func (b *slowBody) Read(p []byte) (int, error) {
+	b.once.Do(func() {
+		if b.delay > 0 {
+			start := time.Now()
+			time.Sleep(b.delay)
+			b.took.Store(int64(time.Since(start)))
+		}
+	})
+
+	return b.r.Read(p)
+}
+
+func (b *slowBody) Close() error { return nil }
+
 func (s *stubTransport) RoundTrip(req *http.Request) (*http.Response, error) {
 	n := s.calls.Add(1)
 	if s.failFrom > 0 && n >= s.failFrom {
@@ -1151,18 +1184,19 @@ func (v hvals) coq() string {
 }
 
 type httpObs struct {
-	MethodOK bool   `json:"method_ok"`
-	Vary     bool   `json:"vary"`
-	Lookup   bool   `json:"lookup"`
-	Cachable bool   `json:"cachable"`
-	H        hvals  `json:"hvals"`
-	LibLife  *int64 `json:"lib_life,omitempty"`
-	Now      int64  `json:"now"`
-	Dmax     int64  `json:"dmax"`
-	TGet     int64  `json:"tget"`
-	NSets    int    `json:"nsets"`
-	Set      *int64 `json:"set,omitempty"`
-	Hit      bool   `json:"hit"`
+	MethodOK  bool   `json:"method_ok"`
+	Vary      bool   `json:"vary"`
+	Lookup    bool   `json:"lookup"`
+	Cachable  bool   `json:"cachable"`
+	H         hvals  `json:"hvals"`
+	LibLife   *int64 `json:"lib_life,omitempty"`
+	Now       int64  `json:"now"`
+	Dmax      int64  `json:"dmax"`
+	BodyDelay int64  `json:"body_delay,omitempty"`
+	TGet      int64  `json:"tget"`
+	NSets     int    `json:"nsets"`
+	Set       *int64 `json:"set,omitempty"`
+	Hit       bool   `json:"hit"`
 }
 
 func (e *env) runHTTP(c *c10Case) (httpObs, string, string) {
@@ -1178,8 +1212,18 @@ func (e *env) runHTTP(c *c10Case) (httpObs, string, string) {
 		// the bracket starts before the headers are made: Date/Expires are relative to this clock reading
 		t0 := time.Now()
 		hdr := c.Resp.header(t0)
+
+		var first *slowBody
+
 		stub := &stubTransport{make: func(n int64, req *http.Request) *http.Response {
-			return response(req, c.Resp.Status, hdr, fmt.Sprintf("body-%d", n))
+			resp := response(req, c.Resp.Status, hdr, fmt.Sprintf("body-%d", n))
+			if n == 1 {
+				// the headers are there at once, the body only after BodyDelay
+				first = &slowBody{r: resp.Body, delay: time.Duration(c.BodyDelay)}
+				resp.Body = first
+			}
+
+			return resp
 		}}
 
 		if c.Fail2 {
@@ -1200,8 +1244,15 @@ func (e *env) runHTTP(c *c10Case) (httpObs, string, string) {
 		io.Copy(io.Discard, resp.Body)
 
 		sum := rec.summary()
+		setAt := rec.setAt
 		dmax := int64(time.Since(t0))
-		flipped := time.Now().Unix() != t0.Unix()
+		flipped := hdr.Get("Date") != "" && time.Now().Unix() != t0.Unix()
+
+		bdelay := int64(0)
+		if first != nil && sum.set != nil {
+			// the body was read before the Set (by the dump); otherwise it was read by the driver afterwards
+			bdelay = first.took.Load()
+		}
 
 		// second request: immediately (in-memory) or after simulated time (miniredis)
 		tget := int64(0)
@@ -1213,6 +1264,7 @@ func (e *env) runHTTP(c *c10Case) (httpObs, string, string) {
 		rec.begin(1)
 
 		hit := false
+		start2 := time.Now()
 
 		resp, err = rt.RoundTrip(c.Resp.request(ctx, 1))
 		if err == nil {
@@ -1223,9 +1275,16 @@ func (e *env) runHTTP(c *c10Case) (httpObs, string, string) {
 			panic(err)
 		}
 
-		total := int64(time.Since(t0))
+		end2 := time.Now()
+		uncert := int64(end2.Sub(start2))
+
 		if be.mr == nil {
-			tget = total
+			// at most this long after the Set was called
+			tget = int64(end2.Sub(t0))
+			if !setAt.IsZero() {
+				tget = int64(end2.Sub(setAt))
+				uncert += int64(start2.Sub(setAt))
+			}
 		}
 
 		be.close()
@@ -1233,17 +1292,17 @@ func (e *env) runHTTP(c *c10Case) (httpObs, string, string) {
 		o = httpObs{
 			MethodOK: c.Resp.Method == http.MethodGet || c.Resp.Method == http.MethodHead, Vary: c.Resp.Vary != "",
 			Lookup: sum.lookup, Cachable: cachable, H: parseHvals(hdr), LibLife: life, Now: t0.UnixNano(), Dmax: dmax,
-			TGet: tget, NSets: sum.nsets, Set: sum.set, Hit: hit,
+			BodyDelay: bdelay, TGet: tget, NSets: sum.nsets, Set: sum.set, Hit: hit,
 		}
 
 		// the apparent age (now - Date, whole seconds) must be the same at both ends of the bracket; a stored ttl
 		// must not be within the measured uncertainty of the second request's instant
-		if flipped || total > 4*sec {
+		if flipped {
 			continue
 		}
 
 		if sum.set != nil && *sum.set > 0 {
-			if d := *sum.set - tget; d > -4*total-2*msec && d < 4*total+2*msec {
+			if d := *sum.set - tget; d > -4*uncert-2*msec && d < 4*uncert+2*msec {
 				continue
 			}
 		}
@@ -1254,9 +1313,30 @@ func (e *env) runHTTP(c *c10Case) (httpObs, string, string) {
 	}
 
 	coq := vf.CoqApp("CHttp", coqBackend(c.Backend), vf.CoqBool(o.Cachable), o.H.coq(), vf.CoqZ(c.Dflt), vf.CoqZ(o.Now),
-		vf.CoqZ(o.Dmax), vf.CoqZ(o.TGet), vf.CoqZ(int64(o.NSets)), optZ(o.Set), vf.CoqBool(o.Hit))
+		vf.CoqZ(o.Dmax), vf.CoqZ(o.BodyDelay), vf.CoqZ(o.TGet), vf.CoqZ(int64(o.NSets)), optZ(o.Set), vf.CoqBool(o.Hit))
 
 	return o, coq, timing
+}
+
+// genSlowBody: a cachable response whose remaining freshness is 1-2 s on arrival and whose body arrives 0.3 / 1.2 / 2.3 s
+// after the headers, into the real in-memory cache: the ttl handed to Set must be what is left AFTER the body arrived,
+// and nothing may be stored (nor answered from cache) once the response went stale on the wire.
+func genSlowBody(r *vf.Rand) c10Case {
+	c := c10Case{Kind: "http", Backend: "mem", Resp: &c10Resp{Method: vf.Pick(r, []string{"GET", "GET", "HEAD"}), Status: 200},
+		BodyDelay: vf.Pick(r, []int64{300 * msec, 1200 * msec, 1200 * msec, 2300 * msec})}
+
+	switch r.Intn(4) {
+	case 0:
+		c.Resp.CC = vf.Pick(r, []string{"max-age=1", "max-age=2"})
+	case 1:
+		c.Resp.CC, c.Resp.Age = "max-age=60", vf.Pick(r, []string{"58", "59"})
+	case 2:
+		c.Dflt = vf.Pick(r, []int64{sec, 2 * sec}) // no explicit lifetime: the default ttl
+	default:
+		c.Resp.Expires = p64(vf.Pick(r, []int64{2, 3})) // Expires without Date: an absolute instant 1-3 s ahead
+	}
+
+	return c
 }
 
 // ---------------------------------------------------------------- kind cache
@@ -2062,6 +2142,11 @@ func corpus() []c10Case {
 		{Kind: "http", Backend: "mem", Resp: &c10Resp{Method: "GET", Status: 200, Date: p64(0), Expires: p64(3600), Age: "7200"}},
 		{Kind: "http", Backend: "mem", Dflt: 5 * sec, Resp: &c10Resp{Method: "GET", Status: 200, ExpRaw: "0"}},
 		{Kind: "http", Backend: "mem", Resp: &c10Resp{Method: "GET", Status: 200, CC: "max-age=3600", Age: "60"}},
+		// the body arrives after the response went stale (seeded C10-10): nothing may be stored; or in time: a shorter ttl
+		{Kind: "http", Backend: "mem", BodyDelay: 1200 * msec, Resp: &c10Resp{Method: "GET", Status: 200, CC: "max-age=1"}},
+		{Kind: "http", Backend: "mem", BodyDelay: 1200 * msec, Resp: &c10Resp{Method: "GET", Status: 200, CC: "max-age=60", Age: "59"}},
+		{Kind: "http", Backend: "mem", BodyDelay: 1200 * msec, Dflt: sec, Resp: &c10Resp{Method: "GET", Status: 200}},
+		{Kind: "http", Backend: "mem", BodyDelay: 300 * msec, Resp: &c10Resp{Method: "GET", Status: 200, CC: "max-age=1"}},
 		// remote system down on the second request: nothing but a fresh entry may answer
 		{Kind: "http", Backend: "redis", Adv: 1500 * msec, Fail2: true, Resp: &c10Resp{Method: "GET", Status: 200, CC: "max-age=1"}},
 		{Kind: "http", Backend: "redis", Adv: 500 * msec, Fail2: true, Resp: &c10Resp{Method: "GET", Status: 200, CC: "max-age=1"}},
@@ -2245,6 +2330,7 @@ func tags(c *c10Case, out any) []string {
 
 		t = append(t, fmt.Sprintf("site:cacheResponse/cachable=%t/life=%s/set=%t/hit=%t", o.Cachable, life, o.Set != nil, o.Hit),
 			fmt.Sprintf("site:cachedResponse/method_ok=%t/vary=%t/lookup=%t", o.MethodOK, o.Vary, o.Lookup),
+			fmt.Sprintf("http:slow-body=%t/stored=%t", c.BodyDelay > 0, o.Set != nil),
 			fmt.Sprintf("http:aged=%t/bad_expires=%t/fail2=%t/adv=%t", o.H.Age > 0 || (o.H.Date != nil && *o.H.Date < o.Now-sec),
 				o.H.BadExp, c.Fail2, c.Adv > 0))
 	case []opObs:
@@ -2316,6 +2402,10 @@ func TestVerifC10(t *testing.T) {
 			}
 
 			c = genCache(r, be)
+			if i%100 == 16 {
+				c = genSlowBody(r) // twelve per 1200 cases; they sleep 0.3 .. 2.3 s, in parallel
+			}
+
 			if i%200 == 15 {
 				c = genBurst(r) // six per 1200 cases; they sleep 0.2 .. 2 s, in parallel
 			}
@@ -2400,7 +2490,7 @@ func TestVerifC10(t *testing.T) {
 	var sleepers []job
 
 	for _, j := range jobs {
-		if (j.c.Kind == "cache" || j.c.Kind == "hist" || j.c.Kind == "mix") && j.c.Backend == "mem" {
+		if (j.c.Kind == "cache" || j.c.Kind == "hist" || j.c.Kind == "mix" || j.c.BodyDelay > 0) && j.c.Backend == "mem" {
 			sleepers = append(sleepers, j)
 
 			continue
